@@ -6,6 +6,7 @@
 //   vec cross_orthogonal <T> in_a=.. in_b=..
 //   vec Matrix4_<member> <T> g_m=16 values g_x=.. g_y=.. g_val=.. g_o=..
 #include "replay/common/args.hh"
+#include <stdexcept>
 #include "Vector.hh"
 #include <limits>
 #include <type_traits>
@@ -133,7 +134,11 @@ template <typename V, typename T> static int vec_mode(const Args& A, const std::
   } else if (m == "at") {
     size_t d = A.u(key(A, "g_dim"));
     if (d >= (size_t)N) PRE_FAIL();
-    if (s.at(d) != comp(s, (int)d)) FAILV("at(%zu) returned 0x%llX, component is 0x%llX", d, (ull)s.at(d), (ull)comp(s, (int)d));
+    try {
+      if (s.at(d) != comp(s, (int)d)) FAILV("at(%zu) returned 0x%llX, component is 0x%llX", d, (ull)s.at(d), (ull)comp(s, (int)d));
+    } catch (const std::exception& e) {
+      FAILV("at(%zu) threw for a valid index of a %d-component vector: %s", d, N, e.what());
+    }
   } else if (m == "dimensions") {
     if (V::dimensions() != (size_t)N) FAILV("dimensions()");
   } else if (m == "norm1" || m == "norm2" || m == "dot") {
